@@ -590,9 +590,10 @@ def _additional_eval(prog, h):
     import re
     from ..tokeval import Ev, Tok, Undecided, PyRaise
     S = Tok("S", ("object",))
-    members_sets = [(), ("a",), ("a", "xa"), ("b", "ax", "c"), ("a", "b", "ab", "ba", ""), ("x.y", "xzy")]
+    members_sets = [(), ("a",), ("a", "xa"), ("b", "ax", "c"), ("a", "b", "ab", "ba", ""), ("x.y", "xzy"), ("aa", "ab", "x-", "x-y", "A")]
     props_sets = [None, {}, {"a": S}, {"a": S, "": S}]
-    pats_sets = [None, {}, {"^x": S}, {"a": S}, {"b$": S, "^a": S}, {"x.y": S}]
+    # each pattern is a regular expression of its own: groups, back-references and inline flags of one say nothing about another
+    pats_sets = [None, {}, {"^x": S}, {"a": S}, {"b$": S, "^a": S}, {"x.y": S}, {"^(x)-": S, "^(.)\\1$": S}, {"(?i)^a$": S, "^b": S}, {"^(?P<n>a)(?P=n)$": S, "^(x)": S}]
     try:
         for members in members_sets:
             inst = {m: Tok("v%d" % i, ("number",)) for i, m in enumerate(members)}
@@ -718,10 +719,17 @@ def rule_additional_complement(ctx, rid="R1.6"):
 
 
 # --------------------------------------------------------------------------- R1.7
+from collections import OrderedDict as _OD
+
+
+class _ListSub(list):
+    """an array as a parser hook may deliver it: a subclass of list (the library's type checks are isinstance tests)"""
+
+
 REPRESENTATIVES = {
     # several members per value class: a predicate that is not uniform on a class is wrong on part of it
     "null": [None], "bool": [True, False], "int": [0, 1, -3, 2 ** 70, 10 ** 400], "intfloat": [0.0, 1.0, -2.0, 1e300],
-    "float": [0.5, -1.5, 1e-9], "str": ["", "s", "1"], "list": [[], [1]], "dict": [{}, {"a": 1}],
+    "float": [0.5, -1.5, 1e-9], "str": ["", "s", "1"], "list": [[], [1], _ListSub([1])], "dict": [{}, {"a": 1}, _OD([("a", 1)])],
 }
 
 
@@ -733,7 +741,15 @@ def eval_type_fn_ex(prog, fn, cls):
     seen = {}
     for v in REPRESENTATIVES[cls]:
         try:
-            res = Ev(prog, fuel=4000).call_func(fn, [object(), v], {})
+            ev = Ev(prog, fuel=4000)
+            if getattr(fn, "made_by", None):
+                # a predicate made by a factory (`is_array = _is("array")`): make it the same way, then ask it
+                from ..tokeval import _ModScope
+                F, call, mod = fn.made_by
+                made = ev.call_func(F, [ev.expr(a, {}, _ModScope(mod)) for a in call.args], {k.arg: ev.expr(k.value, {}, _ModScope(mod)) for k in call.keywords})
+                res = made(object(), v)
+            else:
+                res = ev.call_func(fn, [object(), v], {})
         except Undecided as u:
             return None, "undecided: %s" % u
         except PyRaise as pr:
@@ -990,3 +1006,8 @@ def run(ctx):
     # R1.10: a keyword's verdict may depend on exactly the sibling names the draft gives it (necessary for spec agreement)
     from .c10 import rule_read_set
     rule_read_set(ctx, "R1.10")
+    # R1.14: enum, const and uniqueItems are assertion keywords like the others: what they accept is JSON equality, on the value
+    # table of C08 (look-alikes 1 / true / 1.0, containers, long arrays)
+    from .c08 import eq_functions, rule_relation_table
+    roots, _helpers = eq_functions(ctx.prog)
+    rule_relation_table(ctx, roots, "R1.14")
